@@ -91,6 +91,17 @@ ClosesAngle(s, p, q, depth) ==
          IF s[q][2] = "}" \/ p[q] = 0 \/ p[q] >= q THEN FALSE ELSE ClosesAngle(s, p, p[q] - 1, depth)
     ELSE ClosesAngle(s, p, q - 1, depth)
 
+\* like TopComma, for a type: a `,` between `<` and `>` separates generic arguments, not tuple elements
+\* (an operator-free token sequence has no comparison operators, so `<` `>` are angle brackets)
+RECURSIVE TopCommaInType(_, _, _, _, _)
+TopCommaInType(s, p, q, lim, depth) ==
+    IF q >= lim THEN FALSE
+    ELSE IF s[q] = Comma /\ depth = 0 THEN TRUE
+    ELSE IF IsOpen(s[q]) /\ p[q] > q THEN TopCommaInType(s, p, p[q] + 1, lim, depth)
+    ELSE IF s[q] = <<"p", "<">> THEN TopCommaInType(s, p, q + 1, lim, depth + 1)
+    ELSE IF s[q] = <<"p", ">">> /\ depth > 0 THEN TopCommaInType(s, p, q + 1, lim, depth - 1)
+    ELSE TopCommaInType(s, p, q + 1, lim, depth)
+
 \* the `(` at o opens an argument / parameter / field list (one element with a trailing comma is
 \* still a list), as opposed to a parenthesised expression or a tuple (where `(x)` and `(x,)` differ)
 CallLike(s, p, o) ==
@@ -103,10 +114,13 @@ CallLike(s, p, o) ==
 \* a trailing comma may be added to / dropped from the group opened at o, looking at the elements
 \* in s[o+1 .. lim-1]: always for [..] and {..}; for (..) only if that cannot turn a parenthesised
 \* expression into a one-element tuple or vice versa
+\* (A `,` between `<` and `>` is taken for a generic-argument separator: `(G<a, b>)` is a
+\* parenthesised type, not a tuple.  This is the conservative reading: for a tuple of comparisons
+\* `(a < b, c > d)` a trailing-comma change is not admitted.)
 CommaNeutral(s, p, o, lim) ==
     \/ s[o] # LParen
     \/ CallLike(s, p, o)
-    \/ TopComma(s, p, o + 1, lim)
+    \/ TopCommaInType(s, p, o + 1, lim, 0)
 
 \* s[o] = `(` in a position where only a type can stand, or the group is a complete operand
 TypePosition(s, o) ==
@@ -125,7 +139,7 @@ OperatorFree(s, q, lim) ==
 RedundantParens(s, p, o) ==
     /\ s[o] = LParen /\ p[o] > o + 1
     /\ TypePosition(s, o)
-    /\ ~TopComma(s, p, o + 1, p[o])
+    /\ ~TopCommaInType(s, p, o + 1, p[o], 0)
     /\ OperatorFree(s, o + 1, p[o])
     /\ Tok(s, p[o] + 1) \in {Comma, Semi, LBrace, <<"p", "=">>, <<"p", ">">>,
                              <<"c", ")">>, <<"c", "}">>, <<"c", "]">>}
